@@ -180,7 +180,11 @@ DISPENSO_REQUIRES(ForEachFunc<F, Iter>)
 void for_each_n(TaskSetT& tasks, Iter start, size_t n, F&& f, ForEachOptions options = {}) {
   // TODO(bbudge): With options.maxThreads, we might want to allow a small fanout factor in
   // recursive case?
-  if (!n || !options.maxThreads || detail::PerPoolPerThreadInfo::isParForRecursive(&tasks.pool())) {
+  // A pool without threads and a caller that does not take part (wait == false) leave nobody to
+  // split the range between (the thread count below would be 0 and staticChunkSize divides by it):
+  // run serially, as for maxThreads == 0.
+  if (!n || !options.maxThreads || detail::PerPoolPerThreadInfo::isParForRecursive(&tasks.pool()) ||
+      (tasks.numPoolThreads() == 0 && !options.wait)) {
     for (size_t i = 0; i < n; ++i) {
       f(*start);
       ++start;
